@@ -761,6 +761,43 @@ func c16unionProbes(c *core.Ctx) {
 		c.Violation(core.Replay{Kind: "harness", Summary: "C16 union probe module: " + err.Error(), NoInputFound: true})
 		return
 	}
+	// operands whose names have dots, dashes and underscores (next to a leaf named like the part before the dot)
+	m2, err2 := parser.LoadModuleFromString(nil, `module pd { namespace "urn:pd"; prefix pd; revision 2020-01-01;
+  list item { key id; leaf id { type string; } leaf rate { type int32; } leaf rate.limit { type int32; } leaf max-rate_x { type int32; }
+    leaf hot { when "rate.limit>100"; type string; } leaf cold { when "max-rate_x<5"; type string; } container c.d { leaf e.f { type int32; } } leaf deep { when "c.d/e.f=7"; type string; } }
+}`)
+	if err2 != nil {
+		c.Violation(core.Replay{Kind: "harness", Summary: "C16 dotted-name probe module: " + err2.Error(), NoInputFound: true})
+		return
+	}
+	doc2 := `{"item":[{"id":"a","rate":500,"rate.limit":50,"max-rate_x":9,"hot":"h","cold":"c","c.d":{"e.f":7},"deep":"d"},{"id":"b","rate":1,"rate.limit":200,"max-rate_x":1,"hot":"h","cold":"c","c.d":{"e.f":8},"deep":"d"}]}`
+	for _, tc := range []struct{ path, want string }{
+		{"item", `{"item":[{"id":"a","rate":500,"rate.limit":50,"max-rate_x":9,"c.d":{"e.f":7},"deep":"d"},{"id":"b","rate":1,"rate.limit":200,"max-rate_x":1,"hot":"h","cold":"c","c.d":{"e.f":8}}]}`},
+		{"item?where=rate.limit>100", `{"item":[{"id":"b","rate":1,"rate.limit":200,"max-rate_x":1,"hot":"h","cold":"c","c.d":{"e.f":8}}]}`},
+		{"item?where=rate>100", `{"item":[{"id":"a","rate":500,"rate.limit":50,"max-rate_x":9,"c.d":{"e.f":7},"deep":"d"}]}`},
+		{"item?where=max-rate_x>5", `{"item":[{"id":"a","rate":500,"rate.limit":50,"max-rate_x":9,"c.d":{"e.f":7},"deep":"d"}]}`},
+		{"item?where=c.d/e.f%3D8", `{"item":[{"id":"b","rate":1,"rate.limit":200,"max-rate_x":1,"hot":"h","cold":"c","c.d":{"e.f":8}}]}`},
+	} {
+		c.Evaluations++
+		c.Count("probe", "dotted "+tc.path)
+		var got string
+		perr := safeDo(func() error {
+			n, err := nodeutil.ReadJSON(doc2)
+			if err != nil {
+				return err
+			}
+			sel, err := node.NewBrowser(m2, n).Root().Find(tc.path)
+			if err != nil || sel == nil {
+				return fmt.Errorf("no selection: %v", err)
+			}
+			got, err = nodeutil.WriteJSON(sel)
+			return err
+		})
+		if perr != nil || got != tc.want {
+			c.Violation(core.Replay{Kind: "property-failure", Class: "probe-dotted-names", Summary: fmt.Sprintf("Find(%q) reads %s (%v); the conditions select %s", tc.path, short(got), perr, short(tc.want)),
+				Input: map[string]interface{}{"document": doc2, "find": tc.path}, Impl: got, Spec: tc.want})
+		}
+	}
 	doc := `{"item":[{"id":"a","limit":10,"dep":"x","eq":"x"},{"id":"b","limit":"none","dep":"y","eq":"y"},{"id":"c","limit":5,"dep":"z","eq":"z"},{"id":"d","dep":"w","eq":"w"}]}`
 	for _, tc := range []struct{ path, want string }{
 		{"item", `{"item":[{"id":"a","limit":10,"eq":"x"},{"id":"b","limit":"none","dep":"y"},{"id":"c","limit":5,"dep":"z"},{"id":"d"}]}`},
@@ -796,13 +833,15 @@ func c16unionProbes(c *core.Ctx) {
 // or augment that brings the choice or the case in): every one of them applies to the data nodes below
 func c16inheritProbes(c *core.Ctx) {
 	y := `module pi { namespace "urn:pi"; prefix pi; revision 2020-01-01;
-  grouping g2 { leaf inner { type string; } }
+  grouping g2 { leaf inner { type string; } container box { leaf b { type int32; } leaf z { type string; } } list bl { key k; leaf k { type string; } leaf b { type int32; } } }
   grouping g1 { leaf mid { type string; } uses g2 { when "b=1"; } }
   container nest { leaf a { type int32; } leaf b { type int32; } uses g1 { when "a=1"; } }
   grouping gc { choice ch { case k1 { leaf c1 { type string; } } leaf c2 { type string; } } }
   container withch { leaf on { type int32; } uses gc { when "on=1"; } }
   container t { leaf on { type int32; } choice k { case k1 { leaf x1 { type string; } } } }
   augment "/t/k" { when "on=1"; case k2 { leaf x2 { type string; } container xc { leaf x3 { type string; } } } }
+  grouping gcont { container inner { leaf v { type string; } } list li { key k; leaf k { type string; } } }
+  container outer { leaf flag { type int32; } container mid { leaf flag { type int32; } uses gcont { when "flag=1"; } } }
   container direct { leaf on { type int32; } choice dk { when "on=1"; leaf y1 { type string; } }
     choice dk2 { case d2 { when "on=2"; leaf y2 { type string; } } case d3 { leaf y3 { type string; } } } }
 }`
@@ -816,6 +855,10 @@ func c16inheritProbes(c *core.Ctx) {
 		{`{"nest":{"a":1,"b":0,"mid":"m","inner":"i"}}`, `{"nest":{"a":1,"b":0,"mid":"m"}}`},
 		{`{"nest":{"a":0,"b":1,"mid":"m","inner":"i"}}`, `{"nest":{"a":0,"b":1}}`},
 		{`{"nest":{"a":1,"mid":"m","inner":"i"}}`, `{"nest":{"a":1,"mid":"m"}}`},
+		// both conditions of the nested uses are about the node that holds the uses, also for a container or list
+		// that has a leaf of the operand's name itself
+		{`{"nest":{"a":1,"b":1,"box":{"b":0,"z":"q"},"bl":[{"k":"r","b":0}]}}`, `{"nest":{"a":1,"b":1,"box":{"b":0,"z":"q"},"bl":[{"k":"r","b":0}]}}`},
+		{`{"nest":{"a":1,"b":0,"box":{"b":1,"z":"q"},"bl":[{"k":"r","b":1}]}}`, `{"nest":{"a":1,"b":0,"bl":[]}}`},
 		{`{"withch":{"on":1,"c1":"x"}}`, `{"withch":{"on":1,"c1":"x"}}`},
 		{`{"withch":{"on":0,"c1":"x"}}`, `{"withch":{"on":0}}`},
 		{`{"withch":{"on":0,"c2":"y"}}`, `{"withch":{"on":0}}`},
@@ -827,10 +870,52 @@ func c16inheritProbes(c *core.Ctx) {
 		{`{"direct":{"on":0,"y1":"v"}}`, `{"direct":{"on":0}}`},
 		{`{"direct":{"on":2,"y2":"v"}}`, `{"direct":{"on":2,"y2":"v"}}`},
 		{`{"direct":{"on":1,"y2":"v"}}`, `{"direct":{"on":1}}`},
+		{`FIND - outer/mid/inner {"outer":{"flag":0,"mid":{"flag":1,"inner":{"v":"x"},"li":[{"k":"a"}]}}}`, `{"v":"x"}`},
+		{`FIND outer mid/inner {"outer":{"flag":0,"mid":{"flag":1,"inner":{"v":"x"},"li":[{"k":"a"}]}}}`, `{"v":"x"}`},
+		{`FIND outer/mid inner {"outer":{"flag":0,"mid":{"flag":1,"inner":{"v":"x"},"li":[{"k":"a"}]}}}`, `{"v":"x"}`},
+		{`FIND - outer/mid/li=a {"outer":{"flag":0,"mid":{"flag":1,"inner":{"v":"x"},"li":[{"k":"a"}]}}}`, `{"k":"a"}`},
+		{`FIND - outer/mid/inner {"outer":{"flag":1,"mid":{"flag":0,"inner":{"v":"x"},"li":[{"k":"a"}]}}}`, `nil`},
+		{`FIND outer mid/inner {"outer":{"flag":1,"mid":{"flag":0,"inner":{"v":"x"},"li":[{"k":"a"}]}}}`, `nil`},
+		{`FIND outer mid/li=a {"outer":{"flag":1,"mid":{"flag":0,"inner":{"v":"x"},"li":[{"k":"a"}]}}}`, `nil`},
 	} {
 		c.Evaluations++
 		c.Count("probe", "inherited condition")
 		c.Distinct("inherit " + tc.doc)
+		if strings.HasPrefix(tc.doc, "FIND ") {
+			// a condition handed down by a uses is evaluated where the node lives, whatever selection the path starts from
+			f := strings.SplitN(tc.doc[5:], " ", 3) // start, path, data
+			var got string
+			perr := safeDo(func() error {
+				n, err := nodeutil.ReadJSON(f[2])
+				if err != nil {
+					return err
+				}
+				sel := node.NewBrowser(m, n).Root()
+				if f[0] != "-" {
+					if sel, err = sel.Find(f[0]); err != nil || sel == nil {
+						return fmt.Errorf("start selection: %v", err)
+					}
+				}
+				t, err := sel.Find(f[1])
+				if err != nil {
+					return err
+				}
+				if t == nil {
+					got = "nil"
+					return nil
+				}
+				got, err = nodeutil.WriteJSON(t)
+				return err
+			})
+			if perr != nil {
+				got = "error " + short(perr.Error())
+			}
+			if got != tc.want {
+				c.Violation(core.Replay{Kind: "property-failure", Class: "probe-inherited-condition-find", Summary: fmt.Sprintf("from %q Find(%q) on %s gives %s, want %s", f[0], f[1], f[2], got, tc.want),
+					Input: map[string]interface{}{"yang": y, "start": f[0], "find": f[1], "document": f[2]}, Impl: got, Spec: tc.want})
+			}
+			continue
+		}
 		var got string
 		perr := safeDo(func() error {
 			n, err := nodeutil.ReadJSON(tc.doc)
